@@ -27,6 +27,32 @@ def main():
     hard = float(shard.get('hard_timeout', 600))
     faulthandler.enable()
     faulthandler.dump_traceback_later(hard, exit=True)
+
+    def partial():
+        # a few seconds before the hard time-out: what the monitors have seen so
+        # far, so that violations observed by a shard that then hangs are not lost
+        # (ok=False: its counters never count towards "held")
+        for _ in range(20):
+            try:
+                r = acc.dump()
+                break
+            except RuntimeError:
+                time.sleep(0.01)
+        else:
+            return
+        r['ok'] = False
+        r['internal_error'] = (f'hard time-out of {hard:.0f} s: partial result written '
+                               'by the worker watchdog')
+        try:
+            with open(out + '.partial', 'w') as f:
+                json.dump(r, f)
+            if not os.path.exists(out):
+                os.replace(out + '.partial', out)
+        except Exception:
+            pass
+    wd = threading.Timer(max(1.0, hard - 8.0), partial)
+    wd.daemon = True
+    wd.start()
     cov = None
     if os.environ.get('VF_COV_DIR'):
         # coverage survey (tooling, `python -m vf.covsurvey`): which lines of the
@@ -60,6 +86,7 @@ def main():
         result['internal_error'] = short_tb(e, 12)
     finally:
         faulthandler.cancel_dump_traceback_later()
+        wd.cancel()
         if cov is not None:
             try:
                 cov.stop()
